@@ -596,6 +596,7 @@ class _Run:
 
 
 class ChanSim(Simulator):
+    crash_rule = "C12.R4"
     name = "chansim"
     property_id = "C12"
     level = "exploration"
